@@ -99,7 +99,7 @@ def run(ck, replay=None):
     rng = Rng(ck.seed)
     ck.rule = ('C-bit: TridiagEigen<double> (eigenvalues, eigenvectors or the thrown exception) on 10 tridiagonal families (random, integer, graded over 12 decades, '
                'exact zero sub-diagonals, repeated eigenvalues, Wilkinson, zero, 1e-290 / 1e150 scalings, sub-diagonals at the deflation threshold +-3 ulp), n = 2..24; '
-               'UpperHessenbergEigen<double>: eigenvalues recomputed by the model from the Schur factor T and the scale, compared as bit patterns; predicate slice: '
+               'UpperHessenbergSchur<double>: T, U or the exception of the complete Francis iteration (exceptional shifts, 2x2 splitting, reflector kernels) on the 13 Hessenberg families, bit for bit; UpperHessenbergEigen<double>: eigenvalues recomputed by the model from the Schur factor T and the scale, compared as bit patterns; predicate slice: '
                'T Z = Z D, Z\'Z = I, U T U\' = H, U\'U = I, T quasi-triangular with complex-pair 2x2 blocks only, unit-norm eigenpairs with small residual, value conventions, '
                'in float/double/long double on 13 Hessenberg families (random, integer, graded, deflated, companion, Jordan-like defective, rotation blocks with repeated '
                'pairs, zero, 1e-140 / 1e140 scalings, symmetric, isolated 2x2 blocks with an exactly zero discriminant, several complex pairs with exactly equal real parts), n = 2..64; non-trivial = n >= 3; distinct by case line')
@@ -190,6 +190,47 @@ def run(ck, replay=None):
             for l in hl:
                 ck.count(l, int(l.split()[1]) >= 3)
             for l, x, y in dh[:10]:
+                broken_inputs.append('pred_eig double ' + l.split(' ', 1)[1])
+        # ---- UpperHessenbergSchur bit for bit (T, U, or the thrown exception)
+        if c and okm:
+            per = 5 if ck.tier == 'quick' else 150
+            sl = []
+            # two more families for the tie only (not for the predicate: 'tiny' is outside the property's scaling range): perturbed cyclic shifts stagnate
+            # under the standard shifts and take Wilkinson's exceptional shift (iter == 10), entries around 1e-100..1e-160 reach MATLAB's one (iter == 30)
+            for kind in HESS_KINDS + ['cyclic', 'tiny']:
+                for rep in range(per):
+                    n = rng.range(2, 12 if ck.tier == 'quick' else 32)
+                    if kind == 'cyclic':
+                        n = max(n, 3); H = [[0.0] * n for _ in range(n)]; sc = 2.0 ** rng.range(-2, 2)
+                        for j in range(n - 1):
+                            H[j][j + 1] = sc
+                        H[n - 1][0] = sc * (1 if rng.below(2) else -1)
+                        e = 0.0 if rng.below(3) == 0 else 10.0 ** (-rng.range(1, 12))
+                        for j in range(n):
+                            for i in range(min(n, j + 2)):
+                                if e and rng.below(3) == 0:
+                                    H[j][i] += e * rnd(rng)
+                    elif kind == 'tiny':
+                        n = min(n, 8); H = hess_case(rng, n, 'random'); f = 10.0 ** (-rng.range(100, 160)); H = [[v * f for v in col] for col in H]
+                    else:
+                        H = hess_case(rng, n, kind)
+                    sl.append('schur %d %s' % (n, ' '.join(map(hx, flat(H)))))
+            if replay and replay.get('cbit'):
+                sl = [l for l in replay['cbit'] if l.startswith('schur')]
+            rc1, a, rc2, b = run_pair(exe, mexe, sl, 'setconsts ' + ' '.join(c))
+            ds = [(l, x, y) for l, x, y in zip(sl, a, b) if canon_nan(x.strip()) != canon_nan(y.strip())]
+            msg = ''
+            if ds:
+                xa, xb = ds[0][1].split(), ds[0][2].split()
+                pos = next((i for i, (p, q) in enumerate(zip(xa, xb)) if p != q), -1)
+                msg = 'case `%s...`: first differing output #%d impl=%s model=%s' % (ds[0][0][:70], pos, xa[pos] if 0 <= pos < len(xa) else '?', xb[pos] if 0 <= pos < len(xb) else '?')
+            nthrow = sum(1 for x in a if x.strip() == 'throw')
+            ck.oblige('C-bit schur: UpperHessenbergSchur<double> (matrix_T, matrix_U, or the thrown exception) == model bit for bit (%d cases, %d threw)' % (len(sl), nthrow),
+                      rc1 == 0 and rc2 == 0 and len(a) == len(sl) and len(b) == len(sl) and not ds, msg or 'rc=%s/%s' % (rc1, rc2))
+            ck.coverage_extra['schur_throws'] = nthrow
+            for l in sl:
+                ck.count(l, int(l.split()[1]) >= 3)
+            for l, x, y in ds[:10]:
                 broken_inputs.append('pred_eig double ' + l.split(' ', 1)[1])
         # ---- the property's identities on the implementation
         per = 5 if ck.tier == 'quick' else 120
@@ -307,8 +348,8 @@ def run(ck, replay=None):
         if pl and out:
             ck.sample({'case': pl[len(pl) // 2][:120] + '...', 'result': out[len(pl) // 2] if len(out) > len(pl) // 2 else None})
     ck.assumptions = ['the n*eps backward-error bounds are floating-point statements: evaluated on the implementation (predicate slice), not proved',
-                      'C-bit covers TridiagEigen<double> completely and the eigenvalue extraction / scaling of UpperHessenbergEigen<double>; UpperHessenbergSchur and the '
-                      'eigenvector back-substitution (which uses std::complex division) are covered by the predicate slice only',
+                      'C-bit covers TridiagEigen<double> and UpperHessenbergSchur<double> completely (scalar path of the reflector kernels: -DEIGEN_DONT_VECTORIZE) and the eigenvalue '
+                      'extraction / scaling of UpperHessenbergEigen<double>; the eigenvector back-substitution (which uses std::complex division) is covered by the predicate slice only',
                       'an exception at the iteration limit is an allowed outcome; the number seen is recorded in the evidence']
     if ck.broken() or first_fail:
         br = ck.broken()
